@@ -25,7 +25,9 @@ def describe(tier):
                 "incl. a bare indicator; mixed plain/awaitable list), H4 expand_packages (4 occurrences, two of the same key; and a missing "
                 "package), H5 2-3 concurrent evaluations as tasks each with its own context-local data (the same expression, and DIFFERENT expressions: one part / several parts / bare indicator / hint only) (also through the library's "
                 "ContentEvaluationResult-based evaluators), H8 the same with packages in each evaluation's own content evaluation result (same package keys, other expressions), H10 one token logic provider "
-                "serving two format versions with different evaluators / hints / packages and concurrent evaluations carrying different versions, H11 user-style evaluators with real evaluate_<key> methods of which some are plain and some suspending coroutine functions (RC and FC; zero-yield value "
+                "serving two format versions with different evaluators / hints / packages and concurrent evaluations carrying different versions, H10 also with a general and a specific EDIFACT format registered in either order, H12 ONE long-lived user-style evaluator instance serving all explored "
+                "executions (each on a new event loop) with a key that occurs several times, H13 user-style coroutine methods computing their answer from the evaluatable "
+                "data of 2-3 concurrent evaluations, H11 user-style evaluators with real evaluate_<key> methods of which some are plain and some suspending coroutine functions (RC and FC; zero-yield value "
                 "compared with the reference), H3 also with parts that raise "
                 "InvalidExpressionError (same exception class in every order), H6 is_valid_expression with a ContextVar setter (valid and invalid expression; no content evaluation result may be handed to two of the concurrent evaluations), H9 = H1/H3 with a synchronous hints provider, H7 "
                 "every assignment of the evaluator kinds {sync, async-immediate, async-yield-once, async-yield-twice} to 3 keys. For every "
@@ -373,7 +375,13 @@ def h10(params, zero):
     from ahbicht.expressions.package_expansion import DictBasedPackageResolver
     import inject
 
-    versions = [EdifactFormatVersion.FV2104, EdifactFormatVersion.FV2210]
+    from efoli import EdifactFormat
+
+    # (format, version) pairs: two versions of one format, or - "formats" - a general and a specific format of one version,
+    # registered in either order
+    versions = [(_I.FMT, EdifactFormatVersion.FV2104), (_I.FMT, EdifactFormatVersion.FV2210)]
+    if params.get("formats"):
+        versions = [(EdifactFormat.UTILMD, _I.FMTV), (EdifactFormat.UTILMDS, _I.FMTV)]
     assign = params["versions"]  # evaluation i carries versions[assign[i]]
     n = len(assign)
     expr = "Muss [1][901] U [501] Soll [2][901] U [1P]"
@@ -388,8 +396,8 @@ def h10(params, zero):
             tag = f"v{v}"
 
             class Rc(RcEvaluator):
-                edifact_format = _I.FMT
-                edifact_format_version = versions[v]
+                edifact_format = versions[v][0]
+                edifact_format_version = versions[v][1]
 
                 def _get_default_context(self):
                     return EvaluationContext(scope=None)
@@ -403,8 +411,8 @@ def h10(params, zero):
                     return _I.STATE["U" if v == 0 else "F"]
 
             class Fc(FcEvaluator):
-                edifact_format = _I.FMT
-                edifact_format_version = versions[v]
+                edifact_format = versions[v][0]
+                edifact_format_version = versions[v][1]
 
                 async def evaluate_901(self, entered_input):
                     await point(f"fc:901@{tag}")
@@ -413,16 +421,16 @@ def h10(params, zero):
             hp = DictBasedHintsProvider({"501": f"Hinweis {tag}"})
             pr = DictBasedPackageResolver({"1P": "[1]" if v == 0 else "[2]"})
             for x in (hp, pr):
-                x.edifact_format, x.edifact_format_version = _I.FMT, versions[v]
+                x.edifact_format, x.edifact_format_version = versions[v]
             return [Rc(), Fc(), hp, pr]
 
-        provider = SingletonTokenLogicProvider(make(0) + make(1))
+        provider = SingletonTokenLogicProvider(make(1) + make(0) if params.get("formats") == "specific-first" else make(0) + make(1))
         version_of = contextvars.ContextVar("h10_version", default=None)
 
         def configure(binder):
             binder.bind(TokenLogicProvider, provider)
             binder.bind_to_provider(EvaluatableDataProvider,
-                                    lambda: EvaluatableData(body=None, edifact_format=_I.FMT, edifact_format_version=version_of.get()))
+                                    lambda: EvaluatableData(body=None, edifact_format=version_of.get()[0], edifact_format_version=version_of.get()[1]))
 
         async def one(i):
             who.set(i)
@@ -524,7 +532,133 @@ def h11(params, zero):
     return factory
 
 
-HARNESS = {"H11": h11, "H10": h10, "H1": h1, "H2": h2, "H3": h3, "H4": h4, "H5": h5, "H6": h6, "H7": h7, "H8": h8, "H9": h9}
+_H12_LONG_LIVED = {}
+
+
+def h12(params, zero):
+    """ONE long-lived user-style evaluator instance (as in an application that configures inject once) serves every explored
+    execution - each execution runs on a NEW event loop (think of consecutive asyncio.run calls); the same key occurs several
+    times in the expression and its coroutine method suspends"""
+    from ahbicht.content_evaluation.evaluationdatatypes import EvaluatableData, EvaluatableDataProvider, EvaluationContext
+    from ahbicht.content_evaluation.rc_evaluators import RcEvaluator
+    from ahbicht.content_evaluation.token_logic_provider import SingletonTokenLogicProvider, TokenLogicProvider
+    from ahbicht.expressions.hints_provider import DictBasedHintsProvider
+    import inject
+
+    expr = ["[1] U ([2] O [1]) U [501]", "Muss [2] U [1] Soll [1] U [3]"][params["expr"]]
+    rcv = dict(zip(("1", "2", "3"), PERMS[params["perm"]]))
+    key = json.dumps(params, sort_keys=True)
+    current = {"sched": None, "zero": True}
+
+    if key not in _H12_LONG_LIVED:
+        async def point(what):
+            if not current["zero"]:
+                await current["sched"].point(what)
+
+        def method(k):
+            async def evaluate(self, evaluatable_data, context):
+                await point(f"rc:{k}")
+                return _I.STATE[rcv[k]]
+            return evaluate
+
+        ns = {f"evaluate_{k}": method(k) for k in rcv}
+        ns.update(edifact_format=_I.FMT, edifact_format_version=_I.FMTV, _get_default_context=lambda self: EvaluationContext(scope=None))
+        hp = DictBasedHintsProvider({"501": "Hinweis"})
+        hp.edifact_format, hp.edifact_format_version = _I.FMT, _I.FMTV
+        _H12_LONG_LIVED[key] = (SingletonTokenLogicProvider([type("LongLivedRc", (RcEvaluator,), ns)(), hp]), current)
+    provider, current = _H12_LONG_LIVED[key]
+
+    def factory(sched):
+        current["sched"], current["zero"] = sched, zero
+
+        def configure(binder):
+            binder.bind(TokenLogicProvider, provider)
+            binder.bind_to_provider(EvaluatableDataProvider,
+                                    lambda: EvaluatableData(body=None, edifact_format=_I.FMT, edifact_format_version=_I.FMTV))
+
+        async def main():
+            inject.clear_and_configure(configure)
+            try:
+                if expr.startswith("["):
+                    return _rc_obs(await _I.requirement_constraint_evaluation(expr))
+                tree = await _I.parse_expression_including_unresolved_subexpressions(expr)
+                return _ahb_obs(await _I.evaluate_ahb_expression_tree(tree))
+            finally:
+                _I._configured = False
+                _I.setup()
+
+        return main()
+
+    return factory
+
+
+def h13(params, zero):
+    """user-style evaluators with real evaluate_<key> coroutine methods that compute their answer from the EVALUATABLE DATA they
+    are handed (body from context-local storage); 2-3 concurrent evaluations with different data"""
+    from ahbicht.content_evaluation.evaluationdatatypes import EvaluatableData, EvaluatableDataProvider, EvaluationContext
+    from ahbicht.content_evaluation.fc_evaluators import FcEvaluator
+    from ahbicht.content_evaluation.rc_evaluators import RcEvaluator
+    from ahbicht.content_evaluation.token_logic_provider import SingletonTokenLogicProvider, TokenLogicProvider
+    from ahbicht.expressions.hints_provider import DictBasedHintsProvider
+    import inject
+
+    n = params["n"]
+    expr = "Muss [1] U [2] U [501] Soll [2][901]"
+    opts = [("F", "U"), ("U", "F"), ("F", "F")]
+    bodies = [{"i": i, "rc": dict(zip(("1", "2"), opts[(params["perm"] + i) % 3])), "fc": (i + params["perm"]) % 2 == 0} for i in range(n)]
+    body_var = contextvars.ContextVar("h13_body", default=None)
+
+    def factory(sched):
+        async def point(what):
+            if not zero:
+                await sched.point(what)
+
+        def rc_method(k):
+            async def evaluate(self, evaluatable_data, context):
+                await point(f"e{evaluatable_data.body['i']}/rc:{k}")
+                return _I.STATE[evaluatable_data.body["rc"][k]]
+            return evaluate
+
+        rc_ns = {f"evaluate_{k}": rc_method(k) for k in ("1", "2")}
+        rc_ns.update(edifact_format=_I.FMT, edifact_format_version=_I.FMTV, _get_default_context=lambda self: EvaluationContext(scope=None))
+
+        async def evaluate_901(self, entered_input):
+            b = body_var.get()
+            await point(f"e{b['i']}/fc:901")
+            return _I.EvaluatedFormatConstraint(format_constraint_fulfilled=b["fc"], error_message=None if b["fc"] else f"msg {b['i']}")
+
+        fc_ns = {"evaluate_901": evaluate_901, "edifact_format": _I.FMT, "edifact_format_version": _I.FMTV}
+        hp = DictBasedHintsProvider({"501": "Hinweis"})
+        hp.edifact_format, hp.edifact_format_version = _I.FMT, _I.FMTV
+        provider = SingletonTokenLogicProvider([type("DataRc", (RcEvaluator,), rc_ns)(), type("DataFc", (FcEvaluator,), fc_ns)(), hp])
+
+        def configure(binder):
+            binder.bind(TokenLogicProvider, provider)
+            binder.bind_to_provider(EvaluatableDataProvider,
+                                    lambda: EvaluatableData(body=body_var.get(), edifact_format=_I.FMT, edifact_format_version=_I.FMTV))
+
+        async def one(i):
+            body_var.set(bodies[i])
+            await point(f"e{i}/start")
+            tree = await _I.parse_expression_including_unresolved_subexpressions(expr)
+            return _ahb_obs(await _I.evaluate_ahb_expression_tree(tree))
+
+        async def main():
+            inject.clear_and_configure(configure)
+            try:
+                loop = asyncio.get_running_loop()
+                tasks = [loop.create_task(one(i), context=contextvars.copy_context()) for i in _which(params, n)]
+                return _results(await asyncio.gather(*tasks, return_exceptions=True))
+            finally:
+                _I._configured = False
+                _I.setup()
+
+        return main()
+
+    return factory
+
+
+HARNESS = {"H12": h12, "H13": h13, "H11": h11, "H10": h10, "H1": h1, "H2": h2, "H3": h3, "H4": h4, "H5": h5, "H6": h6, "H7": h7, "H8": h8, "H9": h9}
 
 
 def plan(tier, seed):
@@ -571,6 +705,15 @@ def plan(tier, seed):
     for assign in ([0, 1], [1, 0]):
         add("H10", {"versions": assign}, order_bound=b["large_order_bound"] + 1 if tier == "quick" else None)
     add("H10", {"versions": [0, 1, 0]}, order_bound=b["large_order_bound"])
+    for order in ("general-first", "specific-first"):
+        for assign in ([0, 1], [1, 0]):
+            add("H10", {"versions": assign, "formats": order}, order_bound=b["large_order_bound"])
+    for perm in range(6):
+        for e in (0, 1):
+            add("H12", {"perm": perm, "expr": e})
+    for perm in (0, 2, 4):
+        add("H13", {"n": 2, "perm": perm}, order_bound=b["large_order_bound"] + 1)
+    add("H13", {"n": 3, "perm": 1}, order_bound=b["large_order_bound"])
     for vals in itertools.product((0, 1), repeat=4):
         for e in range(len(H2_EXPRS)):
             add("H11", {"what": "fc", "vals": list(vals), "expr": e})
@@ -625,7 +768,7 @@ def _baseline(item):
     return _observe(ex)
 
 
-SOLO = {"H5": lambda p: p["n"], "H8": lambda p: p["n"], "H10": lambda p: len(p["versions"])}
+SOLO = {"H5": lambda p: p["n"], "H8": lambda p: p["n"], "H10": lambda p: len(p["versions"]), "H13": lambda p: p["n"]}
 
 
 def _solo_violations(item, base):
